@@ -411,76 +411,99 @@ def sepLen (lax : Bool) : Nat := if lax then 1 else 2
 /-- bytes.strip() default whitespace -/
 def isBytesWs (b : UInt8) : Bool := b == 32 || (9 ≤ b.toNat && b.toNat ≤ 13)
 
+/-- the value of a chunk-size line (the bytes before its separator): size digits up to the
+first `;`, the extension may not contain LF, lax mode strips whitespace around the digits;
+`none` = TransferEncodingError -/
+def chunkSizeOf (cfg : Cfg) (line : Bytes) : Option Nat :=
+  let (sizeB, extBad) :=
+    match findByte 59 line with
+    | some i => (line.take i, (line.drop i).any (· == 10))
+    | none => (line, false)
+  if extBad then none else
+  let sizeB := if cfg.lax then strip isBytesWs sizeB else sizeB
+  if sizeB.isEmpty || !sizeB.all isHexB then none else ofHex sizeB
+
+/-- the rest of the `while chunk:` loop, as seen from one of its branches -/
+abbrev LoopK := PState → Bytes → List Ev → PRes × List Ev
+
+/-- lax mode skips one CR in front of the line feed that ends chunk data -/
+def skipCR (lax : Bool) (c : Bytes) : Bytes := if lax then (match c with | 13 :: t => t | c => c) else c
+/-- the separator: CRLF, in lax mode LF -/
+def sepBytes (lax : Bool) : Bytes := if lax then [10] else [13, 10]
+
+/-- `PARSE_CHUNKED_CHUNK_EOF`: the CRLF (lax: LF, one CR before it skipped) after chunk data -/
+def chunkEofStep (cfg : Cfg) (k : LoopK) (p : PState) (chunk : Bytes) (evs : List Ev) : PRes × List Ev :=
+  let unstripped := chunk
+  let chunk := skipCR cfg.lax chunk
+  let n := sepLen cfg.lax
+  let sep := sepBytes cfg.lax
+  if chunk.take n == sep then
+    k { p with cstate := .size } (chunk.drop n) evs
+  else if chunk.length ≥ n || chunk != sep.take chunk.length then (.err .transferEncoding true, evs)
+  else (.needs { p with tail := unstripped }, evs)
+
+/-- `PARSE_CHUNKED_CHUNK`: chunk data -/
+def chunkStep (cfg : Cfg) (k : LoopK) (p : PState) (chunk : Bytes) (evs : List Ev) : PRes × List Ev :=
+  let required := p.chunkSize
+  let p := { p with chunkSize := required - chunk.length }
+  let evs := evs ++ dataEv (chunk.take required)
+  let chunk := chunk.drop required
+  if p.chunkSize != 0 then (.needs p, evs)
+  else chunkEofStep cfg k { p with cstate := .chunkEof } chunk (evs ++ [.endChunk])
+
+/-- a trailer line without its separator; lax mode also drops CRs in front of the LF -/
+def trailerLine (lax : Bool) (raw : Bytes) : Bytes := if lax then rstrip (· == 13) raw else raw
+/-- the length that is compared with `max_field_size` -/
+def trailerRawLen (lax : Bool) (raw : Bytes) : Nat :=
+  if lax then raw.length - (if raw.getLast? == some 13 then 1 else 0) else raw.length
+
+/-- `PARSE_TRAILERS`: one trailer line -/
+def trailersStep (cfg : Cfg) (k : LoopK) (p : PState) (chunk : Bytes) (evs : List Ev) : PRes × List Ev :=
+  match findSep cfg.lax chunk with
+  | none =>
+    if chunk.any (· == 10) then (.err .transferEncoding true, evs)
+    else (.needs { p with tail := chunk }, evs)
+  | some pos =>
+    let raw := chunk.take pos
+    let chunk := chunk.drop (pos + sepLen cfg.lax)
+    let line := trailerLine cfg.lax raw
+    if trailerRawLen cfg.lax raw > cfg.maxField then (.err .lineTooLong false, evs) else
+    let tl := p.trailerLines ++ [line]
+    if tl.length > p.maxTrailers then (.err .badHttpMessage false, evs) else
+    if line.isEmpty then
+      match parseHeaders cfg.lax cfg.maxField tl with
+      | .error e => (.err e (e == .invalidHeader || e == .transferEncoding), evs)
+      | .ok _ => (.complete chunk, evs ++ [.eof])
+    else
+      k { p with trailerLines := tl } chunk evs
+
+/-- `PARSE_CHUNKED_SIZE`: the chunk-size line; a zero size falls through to the trailers branch
+and a non-zero one to the chunk-data branch in the same iteration -/
+def sizeStep (cfg : Cfg) (k : LoopK) (p : PState) (chunk : Bytes) (evs : List Ev) : PRes × List Ev :=
+  match findSep cfg.lax chunk with
+  | some pos =>
+    if pos > cfg.maxLine then (.err .lineTooLong false, evs) else
+    match chunkSizeOf cfg (chunk.take pos) with
+    | none => (.err .transferEncoding true, evs)
+    | some size =>
+      let chunk := chunk.drop (pos + sepLen cfg.lax)
+      if size == 0 then trailersStep cfg k { p with cstate := .trailers } chunk evs
+      else chunkStep cfg k { p with cstate := .chunk, chunkSize := size } chunk (evs ++ [.beginChunk])
+  | none =>
+    if chunk.any (· == 10) then (.err .transferEncoding true, evs)
+    else (.needs { p with tail := chunk }, evs)
+
 /-- the `while chunk:` loop of the chunked branch. `fuel` bounds iterations (each iteration
 consumes at least one byte or returns). -/
-def chunkedLoop (cfg : Cfg) : Nat → PState → Bytes → List Ev → PRes × List Ev
+def chunkedLoop (cfg : Cfg) : Nat → LoopK
   | 0, p, chunk, evs => (.needs { p with tail := chunk }, evs)
   | fuel + 1, p, chunk, evs =>
     if chunk.isEmpty then (.needs p, evs) else
     match p.cstate with
-    | .size =>
-      match findSep cfg.lax chunk with
-      | some pos =>
-        if pos > cfg.maxLine then (.err .lineTooLong false, evs) else
-        let line := chunk.take pos
-        let (sizeB, extBad) :=
-          match findByte 59 line with
-          | some i => (line.take i, (line.drop i).any (· == 10))
-          | none => (line, false)
-        if extBad then (.err .transferEncoding true, evs) else
-        let sizeB := if cfg.lax then strip isBytesWs sizeB else sizeB
-        if sizeB.isEmpty || !sizeB.all isHexB then (.err .transferEncoding true, evs) else
-        match ofHex sizeB with
-        | none => (.err .transferEncoding true, evs)
-        | some size =>
-          let chunk := chunk.drop (pos + sepLen cfg.lax)
-          if size == 0 then
-            -- falls through to the trailers branch in the same iteration
-            trailersStep cfg fuel { p with cstate := .trailers } chunk evs
-          else
-            chunkStep cfg fuel { p with cstate := .chunk, chunkSize := size } chunk (evs ++ [.beginChunk])
-      | none =>
-        if chunk.any (· == 10) then (.err .transferEncoding true, evs)
-        else (.needs { p with tail := chunk }, evs)
-    | .chunk => chunkStep cfg fuel p chunk evs
-    | .chunkEof => chunkEofStep cfg fuel p chunk evs
-    | .trailers => trailersStep cfg fuel p chunk evs
-where
-  chunkStep (cfg : Cfg) (fuel : Nat) (p : PState) (chunk : Bytes) (evs : List Ev) : PRes × List Ev :=
-    let required := p.chunkSize
-    let p := { p with chunkSize := required - chunk.length }
-    let evs := evs ++ dataEv (chunk.take required)
-    let chunk := chunk.drop required
-    if p.chunkSize != 0 then (.needs p, evs)
-    else chunkEofStep cfg fuel { p with cstate := .chunkEof } chunk (evs ++ [.endChunk])
-  chunkEofStep (cfg : Cfg) (fuel : Nat) (p : PState) (chunk : Bytes) (evs : List Ev) : PRes × List Ev :=
-    let unstripped := chunk
-    let chunk := if cfg.lax then (match chunk with | 13 :: t => t | c => c) else chunk
-    let n := sepLen cfg.lax
-    let sep : Bytes := if cfg.lax then [10] else [13, 10]
-    if chunk.take n == sep then
-      chunkedLoop cfg fuel { p with cstate := .size } (chunk.drop n) evs
-    else if chunk.length ≥ n || chunk != sep.take chunk.length then (.err .transferEncoding true, evs)
-    else (.needs { p with tail := unstripped }, evs)
-  trailersStep (cfg : Cfg) (fuel : Nat) (p : PState) (chunk : Bytes) (evs : List Ev) : PRes × List Ev :=
-    match findSep cfg.lax chunk with
-    | none =>
-      if chunk.any (· == 10) then (.err .transferEncoding true, evs)
-      else (.needs { p with tail := chunk }, evs)
-    | some pos =>
-      let raw := chunk.take pos
-      let chunk := chunk.drop (pos + sepLen cfg.lax)
-      let line := if cfg.lax then rstrip (· == 13) raw else raw
-      let rawLen := if cfg.lax then raw.length - (if raw.getLast? == some 13 then 1 else 0) else raw.length
-      if rawLen > cfg.maxField then (.err .lineTooLong false, evs) else
-      let tl := p.trailerLines ++ [line]
-      if tl.length > p.maxTrailers then (.err .badHttpMessage false, evs) else
-      if line.isEmpty then
-        match parseHeaders cfg.lax cfg.maxField tl with
-        | .error e => (.err e (e == .invalidHeader || e == .transferEncoding), evs)
-        | .ok _ => (.complete chunk, evs ++ [.eof])
-      else
-        chunkedLoop cfg fuel { p with trailerLines := tl } chunk evs
+    | .size => sizeStep cfg (chunkedLoop cfg fuel) p chunk evs
+    | .chunk => chunkStep cfg (chunkedLoop cfg fuel) p chunk evs
+    | .chunkEof => chunkEofStep cfg (chunkedLoop cfg fuel) p chunk evs
+    | .trailers => trailersStep cfg (chunkedLoop cfg fuel) p chunk evs
 
 /-- the early check on a buffered partial line of the chunked parser -/
 def chunkTailTooLong (cfg : Cfg) (p : PState) : Bool :=
